@@ -136,6 +136,18 @@ impl<E: FieldElement, H: ElementHasher<BaseField = E::BaseField>> VerifierChanne
                     .to_string(),
             ));
         }
+        // the Lagrange kernel frame holds evaluations at z, z * g, z * g^2, ..., z * g^(2^(v-1)),
+        // where v = log2(trace_length)
+        if let Some(lagrange_kernel_frame) = ood_trace_frame.lagrange_kernel_frame() {
+            let expected_num_rows = air.trace_length().ilog2() as usize + 1;
+            if lagrange_kernel_frame.num_rows() != expected_num_rows {
+                return Err(VerifierError::ProofDeserializationError(format!(
+                    "expected {} rows in the Lagrange kernel OOD frame, but was {}",
+                    expected_num_rows,
+                    lagrange_kernel_frame.num_rows()
+                )));
+            }
+        }
 
         Ok(VerifierChannel {
             // trace queries
